@@ -1189,6 +1189,77 @@ def rule_r23(prog, res):
     res.floor('R23', 'decoder calls in from_urlsafe_base64', n, 1)
 
 
+def rule_r24(prog, res):
+    from . import c06
+    from ..report import Result
+    res.share('R24', 'length caps of the text readers are inclusive: a '
+              'literal of exactly max_str_len characters is read (C06-R11)',
+              'C06', c06.rule_r11, prog, Result)
+
+
+def rule_r25(prog, res):
+    res.rule('R25', 'the SOAP family writes dates and times as ISO literals '
+             'whatever display format the type carries, the way its readers '
+             'parse them')
+    k = prog.cls('spyne.protocol.soap.soap11:Soap11')
+    f = k.methods.get('__init__')
+    if f is None:
+        raise AnalysisError('Soap11.__init__', 'not found')
+
+    def iso_writer(v):
+        if isinstance(v, ast.Lambda):
+            return isinstance(v.body, ast.Call) and call_name(
+                v.body) == 'isoformat'
+        fn = None
+        if isinstance(v, ast.Attribute) and isinstance(
+                v.value, ast.Name) and v.value.id == 'self':
+            fn = prog.find_method(k, v.attr)
+        elif isinstance(v, ast.Name):
+            fn = k.module.functions.get(v.id) or k.module.functions.get(
+                'Soap11.__init__.' + v.id)
+        if fn is None:
+            return None
+        rets = [r for r in walk_no_defs(fn.node) if isinstance(r, ast.Return)]
+        return bool(rets) and all(
+            isinstance(r.value, ast.Call) and
+            call_name(r.value) == 'isoformat' for r in rets)
+    writers, readers = {}, {}
+    for a in walk_no_defs(f.node):
+        if isinstance(a, ast.Assign) and isinstance(
+                a.targets[0], ast.Subscript) and isinstance(
+                a.targets[0].value, ast.Attribute):
+            tbl = a.targets[0].value.attr
+            key = unparse(a.targets[0].slice)
+            if tbl == '_to_unicode_handlers':
+                writers[key] = a
+            elif tbl == '_from_unicode_handlers':
+                readers[key] = a
+    n = 0
+    for key in sorted(set(readers) | {'Date', 'Time', 'DateTime'}):
+        a = writers.get(key)
+        where = '%s:%d' % (f.module.relpath, (a or f.node).lineno)
+        iso = iso_writer(a.value) if a is not None else False
+        if a is not None:
+            n += 1
+        ok = iso is True
+        res.ob('R25', where, 'Soap11 writes %s with %s' % (key, unparse(
+            a.value)[:50] if a is not None else 'the generic handler'),
+            'ok' if ok else ('unclassified' if iso is None else 'VIOLATED'))
+        if iso is None:
+            res.unclass('R25', where, 'writer for %s: %s' % (key, unparse(
+                a.value)[:60]))
+        elif not ok:
+            res.finding('R25', 'Soap11.__init__|%s|writer-honours-display-'
+                        'format' % key, where, 'the SOAP writer for %s is %s: '
+                        'a display format declared on the type (date_format, '
+                        'dt_format, ...) reaches the wire, which is neither '
+                        'in the lexical space of the advertised xs type nor '
+                        'what the ISO readers of the same protocol parse' % (
+                            key, unparse(a.value)[:60] if a is not None
+                            else 'not overridden'))
+    res.floor('R25', 'ISO writer overrides in Soap11.__init__', n, 3)
+
+
 def run(prog, res, tier):
     res.run_rule(rule_r1, prog, res)
     res.run_rule(rule_r2_r7, prog, res, tier)
@@ -1212,6 +1283,8 @@ def run(prog, res, tier):
     res.run_rule(rule_r21, prog, res)
     res.run_rule(rule_r22, prog, res)
     res.run_rule(rule_r23, prog, res)
+    res.run_rule(rule_r24, prog, res)
+    res.run_rule(rule_r25, prog, res)
 
 
 _I = 'spyne/protocol/_inbase.py'
@@ -1220,6 +1293,18 @@ _B = 'spyne/model/binary.py'
 _S = 'spyne/protocol/soap/soap11.py'
 
 MUTANTS = [
+    Mutant('decimal-length-cap-exclusive', 'R24', 'fire',
+           'spyne/protocol/_inbase.py',
+           in_func('InProtocolBase.decimal_from_unicode',
+                   "len(string) > \\\n", "len(string) >= \\\n"),
+           'bound-not-inclusive'),
+    Mutant('soap-date-writer-generic', 'R25', 'fire',
+           'spyne/protocol/soap/soap11.py',
+           in_func('Soap11.__init__',
+                   "self._to_unicode_handlers[Date] = lambda cls, value: "
+                   "value.isoformat()",
+                   "self._to_unicode_handlers[Date] = self.date_to_unicode"),
+           'writer-honours-display-format'),
     Mutant('writer-ignores-format-alias', 'R23', 'fire',
            'spyne/protocol/_base.py',
            in_func('ProtocolMixin._get_datetime_format',
